@@ -315,8 +315,13 @@ def _table_values(f, e):
         return vals[0] if len(vals) == 1 else None
     out = []
 
-    def add(x):
+    def add(x, depth=0):
         if isinstance(x, ast.Name):
+            # a local that is given one of several module-level tables in the arms of a branch: every one of them
+            locs = [a.value for a in walk_own(f.node) if isinstance(a, ast.Assign)
+                    and any(isinstance(t, ast.Name) and t.id == x.id for t in a.targets)]
+            if locs and depth < 2:
+                return all(add(v, depth + 1) for v in locs)
             x = global_value(x.id)
         if isinstance(x, ast.Tuple):
             out.append(x)
